@@ -7,6 +7,7 @@ import SkgVerif.Model.Kriging
 import SkgVerif.Model.CrossVal
 import SkgVerif.Model.Fit
 import SkgVerif.Gen.Tables
+import SkgVerif.Gen.DirectionExec
 import SkgVerif.Gen.ModelsExec
 import SkgVerif.Gen.STModelsExec
 /-!
@@ -225,6 +226,29 @@ def handleC05 : List String → Option String
       let my ← parseRat my.trimAscii.toString
       let toks := boundsFor Gen.fitBoundsTable (tokens names) un
       some s!"ok|{fmtList fmtRat (toks.map (evalBTok mx my))}"
+  | _ => none
+
+
+def triples : List Float → List (Float × Float × Float)
+  | a :: b :: c :: rest => (a, b, c) :: triples rest
+  | _ => []
+
+def handleC12 : List String → Option String
+  | ["mask", model, par, data] => do
+      let par ← parseFloats par
+      let data ← parseFloats data
+      match par with
+      | [az, tol, bw] =>
+        let f := match model.trimAscii.toString with
+          | "compass" => some Gen.compassMaskF
+          | "triangle" => some Gen.triangleMaskF
+          | _ => none
+        let f ← f
+        let out := (triples data).map fun (sc, yd, d) =>
+          let th := Gen.pairAngleF sc yd d
+          (f az tol bw th d, th)
+        some s!"ok|{fmtList (fun (p : Bool × Float) => if p.1 then "1" else "0") out}|{fmtList (fun (p : Bool × Float) => fmtFloat p.2) out}"
+      | _ => none
   | _ => none
 
 end Skg
